@@ -111,6 +111,15 @@ def run(tier):
     mres = tlc.run("LatticeModel.tla", "LatticeModel.cfg" if tier == "quick" else "LatticeModel_full.cfg", timeout=2400)
     if mres.violated:
         raise MachineryError("LatticeModel: theorem %s of the exact minimum-image definitions fails" % mres.violated)
+    bres = tlc.run("CellBins.tla", "CellBins.cfg")
+    if bres.violated:
+        raise MachineryError("CellBins: the binning rule of the model violates %s" % bres.violated)
+    run.add_model(bres, "CellBins: bin count / width rule of celllist.cpp, every range <= 24, 9 cutoffs, all point pairs: BinsSuffice, BinInRange")
+    for vcfg in ("CellBins_round.cfg", "CellBins_ceil.cfg"):
+        vres = tlc.run("CellBins.tla", vcfg, must_pass=False)
+        if vres.violated != "BinsSuffice":
+            raise MachineryError("vacuity guard: the narrowed-bin variant %s should violate BinsSuffice" % vcfg)
+    run.notes["cellbins_variants_refuted"] = ["round_nearest_no_clamp", "ceil_no_clamp"]
     run.add_model(mres, "LatticeModel: MicSymmetric, SafeKSuffices, BasisIndependent, MicBelowDirect, ShiftInvariant on 5 cells x 8 pbc x 4 basis changes x difference vectors")
     cfgs = exhaustive_pairs(tier) + configs(tier)
     recs = pmap(execute, cfgs, chunksize=32)
